@@ -233,6 +233,7 @@ def run(ctx: Ctx):
     _log_prob_min_rank(ctx, dist, lp, rel)
     # the cache key (samples) is stored only together with its value (log-probabilities)
     _cache_key_with_value(ctx, dist, lp, rel)
+    _log_prob_input_contract(ctx, dist, lp, rel)
     # every scoring call of the wrapper starts the model from a fresh copy of the initial state (siblings agree)
     lmc = [c for c in own_calls(lp.node) if u(c.func) == "self.random_walk.lm"]
     col.ob("G1", "S4", f"{rel}::SequentialLanguageModelDistribution.log_prob::lm(hist, initial_state.copy())",
@@ -277,10 +278,26 @@ def _log_prob_min_rank(ctx: Ctx, dist, lp, rel: str):
     pm = parent_map(lp.node)
     vname = lp.params[1].name
     n_sites = 0
+    def same_rank_as_given(name_node, depth=0):
+        """the value as given, or a version of it that can only have gained leading (broadcast) dimensions"""
+        if depth > 6:
+            return False
+        for d in rd.defs_of(name_node):
+            if d.kind == "param":
+                continue
+            v = d.value
+            if d.kind == "assign" and isinstance(v, ast.Call) and (
+                    (isinstance(v.func, ast.Attribute) and v.func.attr in ("expand", "long", "to", "contiguous") and
+                     isinstance(v.func.value, ast.Name) and v.func.value.id == vname and same_rank_as_given(v.func.value, depth + 1)) or
+                    (call_name(v).endswith("fill_after_eos") and v.args and isinstance(v.args[0], ast.Name) and v.args[0].id == vname
+                     and same_rank_as_given(v.args[0], depth + 1))):
+                continue
+            return False
+        return True
     for n in own_nodes(lp.node):
         need, what = None, None
         if isinstance(n, ast.Call) and isinstance(n.func, ast.Attribute) and isinstance(n.func.value, ast.Name) and n.func.value.id == vname \
-                and all(d.kind == "param" for d in rd.defs_of(n.func.value)):
+                and same_rank_as_given(n.func.value):
             dims = [a.operand.value for a in list(n.args) + [k.value for k in n.keywords]
                     if isinstance(a, ast.UnaryOp) and isinstance(a.op, ast.USub) and isinstance(a.operand, ast.Constant)
                     and isinstance(a.operand.value, int)]
@@ -289,7 +306,7 @@ def _log_prob_min_rank(ctx: Ctx, dist, lp, rel: str):
             elif n.func.attr in ("reshape", "view", "long", "to", "numel"):
                 need, what = 0, u(n)  # rank-agnostic
         elif isinstance(n, ast.Attribute) and n.attr in ("T", "mT") and isinstance(n.value, ast.Name) and n.value.id == vname \
-                and all(d.kind == "param" for d in rd.defs_of(n.value)):
+                and same_rank_as_given(n.value):
             need, what = 2, u(n)
         if need is None or what.endswith(".size(-1)"):
             continue
@@ -375,9 +392,64 @@ def _cache_key_with_value(ctx: Ctx, dist, lp, rel: str):
     col.floor("cache_key_stores", nst, 3)
 
 
+def _log_prob_input_contract(ctx: Ctx, dist, lp, rel: str):
+    """S4 (continued): what the support accepts, log_prob must score. (a) TokenSequenceConstraint ignores everything after
+    the first eos (enumerate_support normalises with fill_after_eos), so the history handed to the model must be
+    normalised the same way - an out-of-vocabulary id after the eos is 'in the support' but breaks an embedding lookup.
+    (b) Validation only requires the value's batch shape to *broadcast* with batch_shape (enumerate_support(expand=False)
+    returns such values), so log_prob must broadcast before it counts samples; and a `torch.empty(...)` result may only be
+    returned under a test that the value has no elements - a zero *quotient* does not mean that."""
+    from sa.defuse import ReachingDefs
+    col = ctx.col
+    rd = ReachingDefs(lp.node)
+    pm = parent_map(lp.node)
+    lmc = [c for c in own_calls(lp.node) if u(c.func) == "self.random_walk.lm" and c.args]
+    norm_ok = bool(lmc) and all(any(call_name(x).endswith("fill_after_eos") for x in rd.derives(c.args[0]).calls()) for c in lmc)
+    col.ob("G13", "S4", f"{rel}::SequentialLanguageModelDistribution.log_prob::history-normalised-after-eos", norm_ok,
+           "the token history handed to the language model is not passed through fill_after_eos (as enumerate_support does): a "
+           "value whose entries after its first eos are out of the vocabulary is in the support, yet log_prob raises IndexError "
+           "from the model's embedding instead of returning the probability of the sequence up to its eos", rel,
+           lmc[0].lineno if lmc else lp.line)
+    empties = []
+    for n in own_nodes(lp.node):
+        if isinstance(n, ast.Return) and isinstance(n.value, ast.Call) and call_name(n.value) in ("torch.empty", "torch.empty_like"):
+            gs = guards_of(pm, n)
+            def _is_numel(e):
+                return isinstance(e, ast.Call) and isinstance(e.func, ast.Attribute) and e.func.attr == "numel" and not e.args
+
+            def _empty_test(t, pol):
+                # `x.numel() == 0` / `not x.numel()` (taken branch) - a direct statement that there are no elements
+                if isinstance(t, ast.Compare) and len(t.ops) == 1 and isinstance(t.ops[0], ast.Eq) and pol:
+                    a, b = t.left, t.comparators[0]
+                    return (_is_numel(a) and isinstance(b, ast.Constant) and b.value == 0) or (_is_numel(b) and isinstance(a, ast.Constant) and a.value == 0)
+                if isinstance(t, ast.UnaryOp) and isinstance(t.op, ast.Not) and pol:
+                    return _is_numel(t.operand)
+                return False
+            by_numel = any(_empty_test(t, pol) for t, pol in gs)
+            empties.append((n, by_numel, " and ".join(u(t) for t, _ in gs)))
+    bad = [e for e in empties if not e[1]]
+    col.ob("G22", "S4", f"{rel}::SequentialLanguageModelDistribution.log_prob::no-uninitialised-result", not bad,
+           f"`{u(bad[0][0])[:70] if bad else ''}` returns uninitialised memory under `{bad[0][2] if bad else ''}`, which is a statement "
+           f"about an integer quotient, not about the value being empty: a single sequence scored against a distribution with "
+           f"batch_size 3 passes validation (it broadcasts) and gets garbage such as -9.7e16", rel, bad[0][0].lineno if bad else lp.line,
+           sample=[e[2] for e in empties])
+    vname = lp.params[1].name
+    bc = any(call_name(c) in ("torch.broadcast_shapes", "broadcast_shapes", "torch.broadcast_to") or
+             (isinstance(c.func, ast.Attribute) and c.func.attr in ("expand", "broadcast_to") and vname in {x.id for x in ast.walk(c.func.value) if isinstance(x, ast.Name)})
+             for c in own_calls(lp.node))
+    col.ob("G19", "S4", f"{rel}::SequentialLanguageModelDistribution.log_prob::value-broadcast-against-batch-shape", bc,
+           "log_prob reshapes the value as if it already carried the full batch dimension; validation (and "
+           "enumerate_support(expand=False)) only promise that it broadcasts with batch_shape: the support then sums to 0.92 "
+           "instead of one, or the reshape raises", rel, lp.line)
+
+
 def _mutants():
     from selftest.mutate import Mutant as M
     _extra = [
+        M("value-not-broadcast", "_decoding.py", "value = value.expand(broadcast_shapes(value.shape[:-1], self.batch_shape) + value.shape[-1:])", "value = value", "value-broadcast-against-batch-shape"),
+        M("history-fed-raw", "_decoding.py", "value = fill_after_eos(value, self.random_walk.eos, -1)", "value = value", "history-normalised-after-eos"),
+        M("empty-result-by-quotient", "_decoding.py", "if value.numel() == 0:\n            return torch.zeros(shape, device=value.device)", "if value.numel() // max(batch_size * value.size(-1), 1) == 0:\n            return torch.empty(shape, device=value.device)", "no-uninitialised-result"),
+        M("cache-keeps-the-caller's-tensor", "_decoding.py", "self._samples_cache = orig_value.clone()", "self._samples_cache = orig_value", "cache-stores-a-snapshot"),
         M("cache-key-before-scoring", "_decoding.py", "orig_value = value\n        if len(self.batch_shape):", "orig_value = value\n        if self.cache_samples:\n            self._samples_cache = value\n        if len(self.batch_shape):", "cache-key-stored-with-its-value"),
         M("packed-kernel-raw-negative-dim", "_decoding.py", "dim = (hyp_dim + dim) % hyp_dim\n    logits, batch_sizes, sidxs, uidxs = logits", "logits, batch_sizes, sidxs, uidxs = logits", "negative-dimension-normalised-before-arithmetic"),
         M("log-prob-needs-sample-dim", "_decoding.py", "value = value.reshape(-1, batch_size, value.size(-1)).transpose(1, 2)", "value = value.flatten(end_dim=-3).transpose(1, 2)", "accepts-unbatched-sample-shape[batch_shape-len=1]"),
@@ -424,7 +496,7 @@ MANIFEST = dict(
         "the three code paths agreeing; the numeric agreement itself is not decided."),
     level_note="Trusted: python ast; documented exception that eos is ignored for packed input. F26 (log_prob of a sample without "
                "sample dimensions raised), F27 (validation rejected early-ending samples), F30 (packed kernel with a negative dim) and "
-               "F31 (sample cache written before scoring) were found and repaired; F28 (cache stores aliases) is a known finding.",
+               "F31 (sample cache written before scoring) F55 (value not broadcast / uninitialised result), F56 (tokens after eos fed to the model) and F28 (cache stored aliases) were found and repaired.",
     technique="static analysis: sibling-implementation agreement (step fingerprints), neutral-element tables, argument/slot binding, single-source attribute use, def-use version rule",
     design_ref="DESIGN.md section 4 C07",
 )
